@@ -136,3 +136,112 @@ Proof.
   destruct (H joins sjs [] s0 _ cs (inv_init s0 Hnd) Hres Hspec) as [h [s [E Hinv]]].
   exists h, s. split; [exact E|]. intros x c Hc Hx. exact (inv_read h s cs x c Hinv Hc Hx).
 Qed.
+
+(* ---------- find_leftmost (dict + while loop) = replaying the merge history ---------- *)
+Definition mroot (r : mrel) (y : nat) : Prop := mget y r = None \/ mget y r = Some y.
+
+Lemma mfollow_root : forall n r y, mroot r y -> mfollow n r y = y.
+Proof. intros n r y [H|H]; destruct n; cbn; rewrite ?H, ?Nat.eqb_refl; reflexivity. Qed.
+
+Lemma mget_madd_right : forall c fr r, mget fr (madd c fr r) = Some c.
+Proof.
+  intros c fr r. unfold madd. cbn [mget]. destruct (Nat.eqb fr c) eqn:E.
+  - cbn [mget]. rewrite Nat.eqb_refl. reflexivity.
+  - destruct (mget c r); cbn [mget].
+    + rewrite Nat.eqb_refl. reflexivity.
+    + rewrite (Nat.eqb_sym c fr), E, Nat.eqb_refl. reflexivity.
+Qed.
+Lemma mget_madd_left : forall c fr r, mroot r c -> mget c (madd c fr r) = Some c.
+Proof.
+  intros c fr r Hc. destruct (Nat.eqb fr c) eqn:E.
+  - apply Nat.eqb_eq in E. subst fr. apply mget_madd_right.
+  - unfold madd. cbn [mget]. rewrite E. destruct Hc as [H|H]; rewrite H; cbn [mget]; rewrite ?Nat.eqb_refl, ?E; [reflexivity | exact H].
+Qed.
+Lemma mget_madd_other : forall c fr r y, y <> c -> y <> fr -> mget y (madd c fr r) = mget y r.
+Proof.
+  intros c fr r y H1 H2. unfold madd. cbn [mget].
+  assert (E1 : Nat.eqb fr y = false) by (apply Nat.eqb_neq; auto). assert (E2 : Nat.eqb c y = false) by (apply Nat.eqb_neq; auto).
+  destruct (if Nat.eqb fr c then Some c else mget c r); cbn [mget]; rewrite ?E1, ?E2; reflexivity.
+Qed.
+
+Lemma mfollow_step : forall c fr r, mroot r c -> mroot r fr ->
+  forall n x, mroot r (mfollow n r x) ->
+    mfollow (S n) (madd c fr r) x = if Nat.eqb (mfollow n r x) fr then c else mfollow n r x.
+Proof.
+  intros c fr r Hc Hfr.
+  assert (Hc' : forall k, mfollow k (madd c fr r) c = c).
+  { intros k. apply mfollow_root. right. apply mget_madd_left. exact Hc. }
+  assert (Hbase : forall x k, mroot r x -> mfollow (S k) (madd c fr r) x = if Nat.eqb x fr then c else x).
+  { intros x k Hx. cbn [mfollow]. destruct (Nat.eqb x fr) eqn:E.
+    - apply Nat.eqb_eq in E. subst x. rewrite mget_madd_right. destruct (Nat.eqb c fr) eqn:E'; [apply Nat.eqb_eq in E'; symmetry; exact E' | apply Hc'].
+    - apply Nat.eqb_neq in E. destruct (Nat.eq_dec x c) as [->|Hn].
+      + rewrite (mget_madd_left c fr r Hc), Nat.eqb_refl. reflexivity.
+      + rewrite (mget_madd_other c fr r x Hn E). destruct Hx as [H|H]; rewrite H, ?Nat.eqb_refl; reflexivity. }
+  intros n. induction n as [|n IH]; intros x Hx.
+  - cbn [mfollow] in Hx |- *. exact (Hbase x 0 Hx).
+  - cbn [mfollow] in Hx. change (mfollow (S n) r x) with (match mget x r with None => x | Some y => if Nat.eqb y x then x else mfollow n r y end).
+    destruct (mget x r) as [y|] eqn:Ex.
+    + destruct (Nat.eqb y x) eqn:Eyx.
+      * apply Hbase. exact Hx.
+      * (* x is not a root of r, hence neither c nor fr *)
+        assert (Hxc : x <> c).
+        { intros ->. destruct Hc as [H|H]; rewrite H in Ex; [discriminate | injection Ex as <-; rewrite Nat.eqb_refl in Eyx; discriminate]. }
+        assert (Hxf : x <> fr).
+        { intros ->. destruct Hfr as [H|H]; rewrite H in Ex; [discriminate | injection Ex as <-; rewrite Nat.eqb_refl in Eyx; discriminate]. }
+        change (mfollow (S (S n)) (madd c fr r) x)
+          with (match mget x (madd c fr r) with None => x | Some y0 => if Nat.eqb y0 x then x else mfollow (S n) (madd c fr r) y0 end).
+        rewrite (mget_madd_other c fr r x Hxc Hxf), Ex, Eyx. apply IH. exact Hx.
+    + apply Hbase. left. exact Ex.
+Qed.
+
+Lemma mrel_of_snoc : forall h fr c, mrel_of (h ++ [(fr, c)]) = madd c fr (mrel_of h).
+Proof. intros h fr c. unfold mrel_of. rewrite fold_left_app. reflexivity. Qed.
+
+Lemma mfollow_replay_rev : forall hr, roots_hist_rev hr ->
+  forall x, mfollow (List.length (rev hr)) (mrel_of (rev hr)) x = rt_leftmost (rev hr) x /\ mroot (mrel_of (rev hr)) (rt_leftmost (rev hr) x).
+Proof.
+  intros hr. induction hr as [|[fr c] t IH]; intros Hr x.
+  - cbn. split; [reflexivity | left; reflexivity].
+  - cbn [roots_hist_rev] in Hr. destruct Hr as (Ht & Efr & Ec). specialize (IH Ht).
+    cbn [rev]. rewrite app_length, mrel_of_snoc, rt_leftmost_snoc. cbn [List.length]. rewrite Nat.add_1_r.
+    assert (Hc : mroot (mrel_of (rev t)) c) by (rewrite <- Ec; apply IH).
+    assert (Hf : mroot (mrel_of (rev t)) fr) by (rewrite <- Efr; apply IH).
+    destruct (IH x) as [E Hroot]. rewrite (mfollow_step c fr _ Hc Hf (List.length (rev t)) x) by (rewrite E; exact Hroot).
+    rewrite E. split; [reflexivity|].
+    destruct (Nat.eqb (rt_leftmost (rev t) x) fr) eqn:Eq.
+    + right. apply mget_madd_left. exact Hc.
+    + apply Nat.eqb_neq in Eq. destruct (Nat.eq_dec (rt_leftmost (rev t) x) c) as [E'|Hn].
+      * rewrite E'. right. apply mget_madd_left. exact Hc.
+      * unfold mroot. rewrite (mget_madd_other c fr _ _ Hn Eq). exact Hroot.
+Qed.
+Theorem mfollow_replay : forall h, roots_hist h ->
+  forall x, mfollow (List.length h) (mrel_of h) x = rt_leftmost h x /\ mroot (mrel_of h) (rt_leftmost h x).
+Proof.
+  intros h Hr x. unfold roots_hist in Hr. pose proof (mfollow_replay_rev (rev h) Hr x) as H. rewrite rev_involutive in H. exact H.
+Qed.
+
+(* the histories rt_run produces are such histories *)
+Lemma rt_leftmost_idem : forall h, roots_hist h -> forall x, rt_leftmost h (rt_leftmost h x) = rt_leftmost h x.
+Proof.
+  intros h Hr x. destruct (mfollow_replay h Hr (rt_leftmost h x)) as [E _]. rewrite <- E.
+  apply mfollow_root. apply (mfollow_replay h Hr x).
+Qed.
+Lemma roots_hist_snoc : forall h fr c, roots_hist h -> rt_leftmost h fr = fr -> rt_leftmost h c = c -> roots_hist (h ++ [(fr, c)]).
+Proof.
+  intros h fr c Hr E1 E2. unfold roots_hist. rewrite rev_app_distr. cbn [rev app roots_hist_rev]. rewrite rev_involutive. auto.
+Qed.
+Theorem rt_run_roots_hist : forall objs joins s0 h s, rt_run objs joins s0 = Some (h, s) -> roots_hist h.
+Proof.
+  intros objs joins s0. unfold rt_run.
+  assert (H : forall js h0 s1 h s, roots_hist h0 ->
+            fold_left (fun st j => match st with Some s2 => rt_join objs s2 j | None => None end) js (Some (h0, s1)) = Some (h, s) -> roots_hist h).
+  { intros js. induction js as [|j js IH]; intros h0 s1 h s Hr Hf; cbn [fold_left] in Hf.
+    - injection Hf as <- <-. exact Hr.
+    - destruct (rt_join objs (h0, s1) j) as [[h1 s2]|] eqn:Ej.
+      + apply (IH h1 s2 h s); [|exact Hf]. unfold rt_join in Ej. destruct (rj_left_obj objs j) as [a|]; [|discriminate].
+        destruct (rj_right_obj objs j) as [b|]; [|discriminate]. cbn [fst snd] in Ej.
+        destruct (st_get (rt_leftmost h0 a) s1); [|discriminate]. destruct (st_get (rt_leftmost h0 b) s1); [|discriminate].
+        injection Ej as <- <-. apply roots_hist_snoc; [exact Hr | apply rt_leftmost_idem; exact Hr | apply rt_leftmost_idem; exact Hr].
+      + exfalso. clear - Hf. induction js as [|x js IHj]; cbn in Hf; [discriminate | exact (IHj Hf)]. }
+  intros h s Hf. exact (H joins [] s0 h s I Hf).
+Qed.
